@@ -12,6 +12,7 @@ import (
 	"os"
 	"path/filepath"
 	"strings"
+	"sync"
 	"testing"
 	"time"
 
@@ -406,6 +407,73 @@ func TestEncryption(t *testing.T) {
 		os.RemoveAll(dir)
 	}
 	if err := writeLines(filepath.Join(out, "encrypt.txt"), lines); err != nil {
+		t.Fatal(err)
+	}
+}
+
+// TestEncryptConcurrent (run under the race detector by the C17 check): driver.Conn must be safe for concurrent use,
+// and every write must get its own nonce: several goroutines write to one encrypted cache at once; afterwards no two
+// files may begin with the same nonce (GCM with a repeated nonce reveals the XOR of the plaintexts), and every value
+// must read back.
+func TestEncryptConcurrent(t *testing.T) {
+	out := os.Getenv("VERIF_OUT")
+	if out == "" {
+		t.Skip("VERIF_OUT not set")
+	}
+	dir, err := os.MkdirTemp("", "verif-encconc-")
+	if err != nil {
+		t.Fatal(err)
+	}
+	defer os.RemoveAll(dir)
+	c, err := fscache.Open("verif", fscache.WithBaseDir(dir), fscache.WithEncryption(encKey))
+	if err != nil {
+		t.Fatal(err)
+	}
+	const writers, rounds = 8, 150
+	var wg sync.WaitGroup
+	for w := 0; w < writers; w++ {
+		wg.Add(1)
+		go func(w int) {
+			defer wg.Done()
+			for i := 0; i < rounds; i++ {
+				key := fmt.Sprintf("k-%d-%d", w, i)
+				val := bytes.Repeat([]byte{byte('a' + w)}, 64)
+				if err := c.Set(key, val); err != nil {
+					t.Errorf("Set: %v", err)
+					return
+				}
+				if v, err := c.Get(key); err != nil || !bytes.Equal(v, val) {
+					t.Errorf("Get after Set: %v", err)
+					return
+				}
+			}
+		}(w)
+	}
+	wg.Wait()
+	nonces := map[string]string{}
+	dup := 0
+	_ = filepath.Walk(dir, func(p string, info os.FileInfo, err error) error {
+		if err != nil || info.IsDir() {
+			return nil
+		}
+		raw, rerr := os.ReadFile(p)
+		if rerr != nil || len(raw) < 12 {
+			return nil
+		}
+		n := string(raw[:12])
+		if other, seen := nonces[n]; seen {
+			dup++
+			_ = other
+		}
+		nonces[n] = p
+		return nil
+	})
+	verdict := "ok"
+	if dup > 0 || t.Failed() {
+		verdict = "BAD"
+	}
+	line := fmt.Sprintf("CONCURRENT writers=%d rounds=%d files=%d repeated_nonces=%d %s\n", writers, rounds, len(nonces), dup, verdict)
+	if err := writeLines(filepath.Join(out, "encconc.txt"), []string{line}); err != nil {
 		t.Fatal(err)
 	}
 }
